@@ -4,8 +4,9 @@
     create_dir takes the lock (since the repair of the check-then-act windows a create_dir is one
     lock section, so this is the lock-granularity interleaving semantics). *)
 From stdpp Require Import gmap list.
-From Coq Require Import NArith ZArith.
-From VFS Require Import Core.Types Core.Calls Base.MemFS Layer.VfsPath Proofs.MemProofs Proofs.MemCalls Proofs.ConcProofs.
+From Coq Require Import NArith ZArith Lia.
+From VFS Require Import Core.Types Core.Prog Core.Calls Base.MemFS Base.Handles Base.Store Layer.VfsPath Layer.Overlay
+  Proofs.MemProofs Proofs.MemCalls Proofs.ConcProofs Proofs.OvlProofs Proofs.OvlConc.
 
 Notation mstate := (gmap (list (list N)) memfile).
 
@@ -41,7 +42,88 @@ Example C17_example :
   is_Some (s' !! [[97%N]; [98%N]; [99%N]]) /\ is_Some (s' !! [[97%N]; [100%N]]).
 Proof. vm_compute. repeat split; eauto; repeat constructor. Qed.
 
+(** ** through an OverlayFS over two MemoryFS layers
+    The overlay's create_dir is some fifteen calls on its layers (resolve the parent, copy the parent
+    chain up, resolve the target, create it in the write layer, remove its deletion marker), and a
+    scheduling step is ONE such call of one thread ([prun]: at least as fine as lock granularity, since
+    every MemoryFS call is one lock section).  For every number of threads, all requested paths
+    (overlapping in any way), all contents of the two layers - deletion markers of earlier removals
+    included - and EVERY schedule: a create_dir_all that has returned has returned Ok, and each
+    directory it asked for is then visible through the overlay (a directory of the write layer, or
+    one of the lower layer that is not marked as deleted).  Hypotheses: the write layer is a
+    well-formed tree; on the requested prefixes neither layer has a file (the property's
+    precondition), names are non-empty and the first is not the bookkeeping directory, and the marker
+    path of a requested prefix holds nothing but a marker (no directory: see finding D28).
+    This is the statement that was FALSE before repair a7ee48b, which it was written to settle:
+    with a marker present, a thread's parent check could see the marker of a directory another thread
+    had just re-created. *)
+Theorem C17_overlay_all_succeed :
+  forall (hs : list hstate) (lg : list (nat * fscall)) (ft : option (nat * nat)) (s0 s1 : mstate)
+         (Ps : list (list (list N))) (sch : list nat),
+  wf s0 ->
+  (forall P q, P ∈ Ps -> q ∈ prefixes P ->
+     not_file s0 q /\ not_file s1 q /\ Forall (fun n => n <> []) q /\ head q <> Some whiteout_name /\
+     (forall f, s0 !! whiteout_path (v0, []) q = Some f -> f_type f = File)) ->
+  exists s0', fst (prun sch (mstore2 s0 s1 hs lg ft) (map (fun P => vp_create_dir_all ovl P) Ps)) = mstore2 s0' s1 hs lg ft /\
+    wf s0' /\
+    forall t P r, Ps !! t = Some P ->
+      snd (prun sch (mstore2 s0 s1 hs lg ft) (map (fun P => vp_create_dir_all ovl P) Ps)) !! t = Some (Ret r) ->
+      r = Ok tt /\ Forall (visible s0' s1) (prefixes P).
+Proof. exact ovl_create_dir_all_concurrent. Qed.
+
+(** non-vacuity: /a exists in the lower layer and was removed through the overlay (its marker is in the
+    write layer); two threads re-create /a/x and /a/y under an interleaving that switches inside
+    create_dir; both return Ok, the marker is gone, the three directories are in the write layer *)
+Definition c17_dir := mkMemFile Dir [] TAuto (Some TAuto) (Some TAuto).
+Definition c17_upper : mstate :=
+  <[[whiteout_name; [97%N] ++ wo_suffix] := mkMemFile File [] TAuto (Some TAuto) (Some TAuto)]>
+    (<[[whiteout_name] := c17_dir]> mem_new).
+Definition c17_lower : mstate := <[[[97%N]] := c17_dir]> mem_new.
+Definition c17_run :=
+  prun (concat (replicate 40 [0; 1; 1; 0; 0]%nat)) (mstore2 c17_upper c17_lower [] [] None)
+       (map (fun P => vp_create_dir_all ovl P) [[[97%N]; [120%N]]; [[97%N]; [121%N]]]).
+Example C17_overlay_example :
+  snd c17_run = [Ret (Ok tt); Ret (Ok tt)] /\
+  match st_bases (fst c17_run) !! 0%nat with
+  | Some (BMem s) => map fst (map_to_list s)
+  | _ => []
+  end = [[]; [[97%N]]; [[97%N]; [121%N]]; [[97%N]; [120%N]]; [whiteout_name]].
+Proof. vm_compute. split; reflexivity. Qed.
+
+(** the example state meets the theorem's hypotheses, with the marker of /a present and /a in the lower layer *)
+Example C17_overlay_hypotheses :
+  wf c17_upper /\
+  (forall P q, P ∈ [[[97%N]; [120%N]]; [[97%N]; [121%N]]] -> q ∈ prefixes P ->
+     not_file c17_upper q /\ not_file c17_lower q /\ Forall (fun n => n <> []) q /\ head q <> Some whiteout_name /\
+     (forall f, c17_upper !! whiteout_path (v0, []) q = Some f -> f_type f = File)) /\
+  is_Some (c17_upper !! whiteout_path (v0, []) [[97%N]]) /\ is_dir c17_lower [[97%N]].
+Proof.
+  split; [|split; [|split]].
+  - split.
+    + eexists. split; [vm_compute; reflexivity|reflexivity].
+    + intros p n f H. unfold c17_upper in H.
+      apply lookup_insert_Some in H as [[E _]|[_ H]].
+      { change [whiteout_name; [97%N] ++ wo_suffix] with ([whiteout_name] ++ [[97%N] ++ wo_suffix]) in E.
+        apply snoc_inj in E as [<- _]. eexists. split; [vm_compute; reflexivity|reflexivity]. }
+      apply lookup_insert_Some in H as [[E _]|[_ H]].
+      { change [whiteout_name] with ([] ++ [whiteout_name]) in E. apply snoc_inj in E as [<- _].
+        eexists. split; [vm_compute; reflexivity|reflexivity]. }
+      unfold mem_new in H. apply lookup_singleton_Some in H as [E _]. destruct p; discriminate.
+  - intros P q HP Hq.
+    assert (Hcases : q = [[97%N]] \/ q = [[97%N]; [120%N]] \/ q = [[97%N]; [121%N]]).
+    { apply elem_of_cons in HP as [-> | HP]; [|apply elem_of_list_singleton in HP as ->];
+        cbn in Hq; apply elem_of_cons in Hq as [-> | Hq]; auto; apply elem_of_list_singleton in Hq as ->; auto. }
+    destruct Hcases as [-> | [-> | ->]]; (split; [|split; [|split; [|split]]]);
+      try (intros f Hf; vm_compute in Hf; first [discriminate|injection Hf as <-; reflexivity]);
+      try (repeat constructor; discriminate); try (cbn; intros E; discriminate).
+  - eexists. vm_compute. reflexivity.
+  - eexists. split; [vm_compute; reflexivity|reflexivity].
+Qed.
+
 Print Assumptions C17_all_succeed.
 Print Assumptions C17_progress_is_prefixes.
 Print Assumptions C17_monotone.
 Print Assumptions C17_example.
+Print Assumptions C17_overlay_all_succeed.
+Print Assumptions C17_overlay_example.
+Print Assumptions C17_overlay_hypotheses.
